@@ -66,6 +66,21 @@ def _uexp(e, pre="U"):
     return "(%sScalR %s %s)" % (pre, _uexp(e[1], pre), _scal(e[2]))
 
 
+def _gexp(e):
+    k = e[0]
+    if k == "atom":
+        return "(GAtom (gfun_of_atom a%d))" % e[1]
+    if k in ("add", "sub"):
+        return "(%s %s %s)" % ("GAdd" if k == "add" else "GSub", _gexp(e[1]), _gexp(e[2]))
+    if k == "neg":
+        return "(GNeg %s)" % _gexp(e[1])
+    if k == "scall":
+        return "(GScalL %s %s)" % (_scal(e[1]), _gexp(e[2]))
+    if k == "scalr":
+        return "(GScalR %s %s)" % (_gexp(e[2]), _scal(e[1]))
+    return "(GDiv %s %s)" % (_gexp(e[2]), _scal(e[1]))
+
+
 def _expected(c, key):
     if c["result"] == "ok":
         return "(EMat %s)" % _mat(c[key])
@@ -115,12 +130,28 @@ def correspond(ctx):
                               "(EMat %s)" % _mat([[x] for x in c["vec"]]) if c["result"] == "ok" else _expected(c, "vec"))
             for c in pcases),
         "Eval vm_compute in (failing (pcase_ok E) pcases).", ""])))
+    gcases = res.get("gf_cases", [])
+    adefs = ["Definition a%d : gatom := {| ga_space := %d; ga_dual := %d; ga_primal := %s; ga_vec := [%s] |}." % (
+        i, a["space"], a["dual"], "true" if a["rep"] == "coef" else "false", "; ".join(_qc(x) for x in a["vec"]))
+        for i, a in enumerate(res.get("gf_atoms", []))]
+
+    def gexpd(c):
+        if c["result"] == "ok":
+            return "(GCoefs %d [%s])" % (c["space"], "; ".join(_qc(x) for x in c["coef"]))
+        if c["result"] in ("ValueError", "AttributeError", "TypeError"):
+            return "(GExn %s)" % c["result"]
+        return "GOther"
+    bodies.append(("c14g", "\n".join(hdr + ["From BV Require Import Algebra.GfLang."] + adefs + [
+        "Definition gcases : list (ugf QC * gexpected) := [\n%s]." % ";\n".join(
+            "(%s, %s)" % (_gexp(c["expr"]), gexpd(c)) for c in gcases),
+        "Eval vm_compute in (failing (gfcase_ok E) gcases).", ""])))
     from concurrent.futures import ThreadPoolExecutor
     with ThreadPoolExecutor(max_workers=len(bodies)) as ex:
         outs = list(ex.map(lambda nb: ctx.coq_eval(nb[0], nb[1], timeout=1200), bodies))
-    ctx.corr["evaluations"] = len(cases) + len(pcases)
+    ctx.corr["evaluations"] = len(cases) + len(pcases) + len(gcases)
     ctx.corr["distinct_nontrivial"] = len({c["show"] for c in cases if c["result"] == "ok" and c["expr"][0] != "atom"}) + \
-        len({c["show"] for c in pcases if c["expr"][0] != "atom"})
+        len({c["show"] for c in pcases if c["expr"][0] != "atom"}) + \
+        len({c["show"] for c in gcases if c["expr"][0] != "atom" and c["result"] == "ok"})
     ctx.corr["rule"] = ("random user expressions (depth <= 3) over stub-assembled operators with exactly known matrices on real "
                         "spaces: library result (dense weak form or exception class) vs the Coq interpretation of the "
                         "regenerated class tables on complex rationals, 1e-9 relative; potential expressions applied to a "
@@ -132,6 +163,9 @@ def correspond(ctx):
     for c in pcases:
         k = "potential %s -> %s" % ("well-typed" if c["typed"] else "ill-typed", c["result"])
         hist[k] = hist.get(k, 0) + 1
+    for c in gcases:
+        k = "grid function -> %s" % c["result"]
+        hist[k] = hist.get(k, 0) + 1
     ctx.corr["histogram"] = hist
     ctx.corr["samples"] = [{"expr": c["show"], "result": c["result"]} for c in (cases[:3] + pcases[:3])]
     if any(o is None for o in outs):
@@ -142,10 +176,11 @@ def correspond(ctx):
             ctx.problem("correspondence", "could not parse model evaluation output", o[-2000:])
             return
         for i in [int(x) for x in re.findall(r'\d+', blocks[0])]:
-            c = cases[k + nchunk * i] if k < nchunk else pcases[i]
+            c = cases[k + nchunk * i] if k < nchunk else (pcases[i] if k == nchunk else gcases[i])
             ctx.corr["disagreements"] += 1
             ctx.problem("correspondence", "model (translated classes) and library disagree on %s %s -> library: %s" % (
-                "boundary expression" if k < nchunk else "potential expression", c["show"], c["result"]))
+                "boundary expression" if k < nchunk else ("potential expression" if k == nchunk else
+                                                          "grid-function expression"), c["show"], c["result"]))
 
 
 def search(ctx, strength):
